@@ -233,6 +233,7 @@ def numeric(o):
 SPEC = {
     "prop_file": "Properties/C06.v",
     "gen": gen,
+    "adaptive_error": True,
     "oracle": oracle,
     "corpus_filter": lambda c: False,
     "stages": [("F", lambda c, o, rng: solcore.stageF(c, o, rng) if c.get("role") in ("base", "scaled") else None, P.stageF_v, 2, 40)],
